@@ -19,6 +19,11 @@ man = {
     "notes": "exit 0 = held on everything explored; 1 = VIOLATION line with replay file; 2 = infrastructure trouble (never a verdict). Known findings: /verif/known_findings.json. See DESIGN.md.",
     "not_applicable": CHECKS["not_applicable"],
 }
+claimed = {c["property_id"] for c in CHECKS["checks"]} | {n["property_id"] for n in man["not_applicable"]}
+for line in open(os.path.join(V, "properties.jsonl")):
+    pid = json.loads(line)["id"]
+    if pid not in claimed:
+        man["not_applicable"].append({"property_id": pid, "reason": "not claimed at this commit: its check is still under construction (see DESIGN.md section 9, build order)"})
 for c in CHECKS["checks"]:
     man["checks"].append({
         "property_id": c["property_id"],
